@@ -75,6 +75,8 @@ pub struct HubState {
     pub seq: u64,
     pub rng: ChaCha8Rng,
     pub delay_max_ms: u64,
+    /// how long a send stays suspended inside the transport before the frame is on the wire (0 = returns at once)
+    pub send_delay_max_ms: u64,
     pub start: tokio::time::Instant,
 }
 
@@ -112,6 +114,7 @@ impl Hub {
                 seq: 0,
                 rng,
                 delay_max_ms,
+                send_delay_max_ms: 0,
                 start: tokio::time::Instant::now(),
             }),
         })
@@ -226,6 +229,14 @@ impl Hub {
 #[async_trait::async_trait]
 impl VerifNet for Hub {
     async fn deliver(&self, from: &str, to: &str, frame: Vec<u8>) -> Result<(), String> {
+        let suspend = {
+            let mut s = self.st.lock().expect("hub");
+            let m = s.send_delay_max_ms;
+            if m > 0 { s.rng.gen_range(0..=m) } else { 0 }
+        };
+        if suspend > 0 {
+            tokio::time::sleep(Duration::from_millis(suspend)).await;
+        }
         let decoded = saorsa_core::network::verif_decode_wire(&frame);
         let (proto, dht) = match &decoded {
             Some((p, d, _, _)) => (p.clone(), if p == "/dht/1.0.0" { postcard::from_bytes::<DhtNetworkMessage>(d).ok() } else { None }),
